@@ -399,3 +399,16 @@ Example C16_runner_zlb_nonvacuous :
   (let '(c', o, d, ret) := tick ex_conf c 250 in map k_nr o = [1] /\ c_zlb c' = None).
 Proof. exact runner_zlb_example. Qed.
 Print Assumptions C16_runner_zlb_nonvacuous.
+
+(* ONE CONTROL CONNECTION = ONE TUNNEL.  For every sequence of events on one (peer, Assigned Tunnel ID) key — copies
+   of the SCCRQ at any point (retransmitted, duplicated, delayed past the SCCCN, past the teardown), teardowns,
+   anything else — the SCCRQ handler runs at most once: at most one tunnel is opened and one SCCRP produced.  This is
+   the rule with the closed-connection record; without it ([linger] = false) a copy delayed past the teardown opens a
+   second tunnel (C16_sccrq_once_refuted). *)
+Theorem C16_sccrq_once : forall evs, (conn_opens true CNone evs <= 1)%nat.
+Proof. exact sccrq_once. Qed.
+Print Assumptions C16_sccrq_once.
+
+Theorem C16_sccrq_once_refuted : conn_opens false CNone [CSccrq; COther; CTeardown; CSccrq] = 2%nat.
+Proof. exact sccrq_twice_without_linger. Qed.
+Print Assumptions C16_sccrq_once_refuted.
